@@ -6,7 +6,7 @@
    [pol_c01 f] the body is [f] of the body of that frame. *)
 From Coq Require Import List ZArith Bool Lia Arith.
 Import ListNotations.
-From Goat Require Import Model.Client Model.Server Proofs.ServerProofs Proofs.ServerInv Proofs.ServerTrace Model.Sys.
+From Goat Require Import Model.Client Model.Server Proofs.ClientBase Proofs.ServerProofs Proofs.ServerInv Proofs.ServerTrace Model.Sys Proofs.SysLog.
 Open Scope Z_scope.
 
 Definition justf (f : Z -> Z) (sg : list (bool * frame)) (fr : frame) : Prop :=
@@ -26,14 +26,27 @@ Inductive pending (v : Server.state) (fr : frame) : Prop :=
 | PHs h k sk : nth_error (hs v) h = Some k -> h_pc k = HInSend fr sk -> pending v fr
 | PLog : In (SvWrite fr) (Server.log v) -> pending v fr.
 
+(* counting frames by id: the handlers ever started (plus the unary request on offer to the workers) are
+   not more, per id, than the frames read from the transport with that id *)
+Definition cnt (i : Z) (l : list frame) : nat := length (filter (fun fr => fid fr =? i) l).
+Definition offer_cnt (i : Z) (p : rdpc) : nat := match p with RdOffer fr => if fid fr =? i then 1%nat else 0%nat | _ => 0%nat end.
+Definition one_if (i : Z) (fr : frame) : nat := if fid fr =? i then 1%nat else 0%nat.
+
+Lemma cnt_app i a b : cnt i (a ++ b) = (cnt i a + cnt i b)%nat.
+Proof. unfold cnt. rewrite filter_app, app_length. reflexivity. Qed.
+
+Lemma cnt_one i fr : cnt i [fr] = one_if i fr.
+Proof. unfold cnt, one_if. simpl. destruct (fid fr =? i); reflexivity. Qed.
+
 Record K (f : Z -> Z) (v : Server.state) : Prop := mkK {
   k_pend : forall fr, pending v fr -> justf f (sigs v) fr;
   k_read : forall u rq, In (u, rq) (sigs v) -> In (SvRead rq) (Server.log v);
-  k_offer : forall fr, rd v = RdOffer fr -> In (SvRead fr) (Server.log v) }.
+  k_offer : forall fr, rd v = RdOffer fr -> In (SvRead fr) (Server.log v);
+  k_count : forall i, (cnt i (map snd (sigs v)) + offer_cnt i (rd v) <= cnt i (sreads (Server.log v)))%nat }.
 
 Lemma K_init f nw : K f (init_n nw).
 Proof.
-  constructor; simpl; try tauto; try discriminate.
+  constructor; simpl; try tauto; try discriminate; try (intros; apply Nat.le_refl).
   intros fr P. destruct P as [P | w P | h k sk P Q | P]; simpl in *; try discriminate; try tauto.
   - apply nth_error_In in P. apply repeat_spec in P. discriminate.
   - destruct h; discriminate.
@@ -71,10 +84,13 @@ Lemma K_from_old f s s' :
   K f s -> pend_old s s' -> sigs s' = sigs s -> (exists evs, Server.log s' = Server.log s ++ evs) ->
   (forall fr, rd s' = RdOffer fr -> rd s = RdOffer fr) -> K f s'.
 Proof.
-  intros [Kp Kr Ko] PO SS (evs & Hlog) Hrd. constructor.
+  intros [Kp Kr Ko Kc] PO SS (evs & Hlog) Hrd. constructor.
   - intros fr P. rewrite SS. destruct (PO fr P) as [P0 | Nb]; [auto | apply justf_nobody; auto].
   - rewrite SS, Hlog. intros u rq Hin. apply in_or_app. left. eauto.
   - intros fr E. rewrite Hlog. apply in_or_app. left. auto.
+  - intros i. rewrite SS, Hlog, sreads_app, cnt_app. specialize (Kc i).
+    assert (offer_cnt i (rd s') <= offer_cnt i (rd s))%nat; [|lia].
+    destruct (rd s') eqn:E; simpl; try lia. rewrite (Hrd _ eq_refl). simpl. lia.
 Qed.
 
 Ltac log_ext := sproj; first [ exists []; rewrite app_nil_r; reflexivity | eexists; rewrite <- ?app_assoc; reflexivity ].
@@ -84,9 +100,10 @@ Lemma K_from_step f s s' :
   K f s -> pend_old s s' -> incl (sigs s) (sigs s') ->
   (forall u rq, In (u, rq) (sigs s') -> In (u, rq) (sigs s) \/ In (SvRead rq) (Server.log s')) ->
   (exists evs, Server.log s' = Server.log s ++ evs) ->
-  (forall fr, rd s' = RdOffer fr -> rd s = RdOffer fr \/ In (SvRead fr) (Server.log s')) -> K f s'.
+  (forall fr, rd s' = RdOffer fr -> rd s = RdOffer fr \/ In (SvRead fr) (Server.log s')) ->
+  (forall i, (cnt i (map snd (sigs s')) + offer_cnt i (rd s') <= cnt i (sreads (Server.log s')))%nat) -> K f s'.
 Proof.
-  intros [Kp Kr Ko] PO SS NS (evs & Hlog) Hrd. constructor.
+  intros [Kp Kr Ko Kc] PO SS NS (evs & Hlog) Hrd Hc. constructor; [ | | | exact Hc].
   - intros fr P. destruct (PO fr P) as [P0 | Nb]; [eapply justf_mono; eauto | apply justf_nobody; auto].
   - intros u rq Hin. destruct (NS u rq Hin) as [O | N]; auto. rewrite Hlog. apply in_or_app. left. eauto.
   - intros fr E. destruct (Hrd fr E) as [O | N]; auto. rewrite Hlog. apply in_or_app. left. auto.
@@ -101,9 +118,11 @@ Ltac pend_app_tac :=
   | in_log P; eauto using pending ].
 
 Lemma K_stream_dispatch f s fr0 :
-  K f s -> In (SvRead fr0) (Server.log s) -> rd s = RdRead -> K f (stream_dispatch s fr0).
+  K f s -> In (SvRead fr0) (Server.log s) -> rd s = RdRead ->
+  (forall i, (cnt i (map snd (sigs s)) + one_if i fr0 <= cnt i (sreads (Server.log s)))%nat) ->
+  K f (stream_dispatch s fr0).
 Proof.
-  intros HK Hr Erd. unfold stream_dispatch.
+  intros HK Hr Erd Hslack. unfold stream_dispatch.
   destruct (find_reg (fid fr0) (hs s) 0) as [h|].
   - destruct (is_rst fr0).
     + destruct (nth_error (hs s) h) as [k|] eqn:Hn; [|exact HK].
@@ -113,22 +132,29 @@ Proof.
     destruct (has_body fr0); [apply (K_from_old f s); [exact HK | pend_old_tac | sigs_same | log_ext | rd_same]|].
     destruct (has_trl fr0); [exact HK|].
     destruct (md_bad fr0); [apply (K_from_old f s); [exact HK | pend_old_tac | sigs_same | log_ext | rd_same]|].
-    apply (K_from_step f s); [exact HK | pend_app_tac | | | log_ext | ].
+    apply (K_from_step f s); [exact HK | pend_app_tac | | | log_ext | | ].
     + unfold sigs; sproj. rewrite map_app. apply incl_appl, incl_refl.
     + unfold sigs; sproj. rewrite map_app. intros u rq Hin. apply in_app_or in Hin. destruct Hin as [Hin | [Hin | []]]; auto.
       inversion Hin; subst. right. apply in_or_app. left. exact Hr.
     + sproj. rewrite Erd. intros ? E. discriminate E.
+    + intros i. unfold sigs; sproj. rewrite Erd. rewrite !map_app, cnt_app, sreads_app, cnt_app. simpl map. rewrite cnt_one.
+      specialize (Hslack i). unfold sigs in Hslack. simpl. lia.
 Qed.
 
-Lemma K_start_unary f s w fr0 : K f s -> In (SvRead fr0) (Server.log s) -> K f (start_unary s w fr0).
+Lemma K_start_unary f s w fr0 :
+  K f s -> In (SvRead fr0) (Server.log s) -> rd s = RdRead ->
+  (forall i, (cnt i (map snd (sigs s)) + one_if i fr0 <= cnt i (sreads (Server.log s)))%nat) ->
+  K f (start_unary s w fr0).
 Proof.
-  intros HK Hr. unfold start_unary.
+  intros HK Hr Erd Hslack. unfold start_unary.
   destruct (negb (has_hdr fr0)); [apply (K_from_old f s); [exact HK | pend_old_tac | sigs_same | log_ext | rd_same]|].
   destruct (md_bad fr0).
   { apply (K_from_old f s); [exact HK | | sigs_same | log_ext | rd_same]. pend_old_tac. }
   destruct (body_tok fr0 <? 0).
   { apply (K_from_old f s); [exact HK | | sigs_same | log_ext | rd_same]. pend_old_tac. }
-  apply (K_from_step f s); [exact HK | | | | log_ext | rd_same].
+  apply (K_from_step f s); [exact HK | | | | log_ext | rd_same | ].
+  4: { intros i. unfold sigs; sproj. rewrite Erd. rewrite !map_app, cnt_app, sreads_app, cnt_app. simpl map. rewrite cnt_one.
+       specialize (Hslack i). unfold sigs in Hslack. simpl. lia. }
   - intros fr P. destruct P as [P | wX P | hX kX skX P Q | P]; sproj.
     + eauto using pending.
     + apply nth_upd_cases in P. destruct P as [(-> & P & _) | (_ & P)]; [discriminate P | eauto using pending].
@@ -161,16 +187,22 @@ Proof.
       { apply (K_from_old f s); [exact HK | pend_old_tac | sigs_same | log_ext | rd_same]. }
       destruct (dispatch fr0); inv_some H.
       * exact K1.
-      * apply (K_from_step f s); [exact HK | pend_old_tac | unfold sigs; sproj; apply incl_refl | unfold sigs; sproj; auto | log_ext | ].
-        sproj. intros ? E. inversion E; subst. right. apply in_or_app. right. simpl. auto.
-      * apply K_stream_dispatch; [exact K1 | sproj; apply in_or_app; right; simpl; auto | sproj; exact Erd].
+      * apply (K_from_step f s); [exact HK | pend_old_tac | unfold sigs; sproj; apply incl_refl | unfold sigs; sproj; auto | log_ext | | ].
+        -- sproj. intros ? E. inversion E; subst. right. apply in_or_app. right. simpl. auto.
+        -- intros i. pose proof (k_count _ _ HK i) as Kc. rewrite Erd in Kc. unfold sigs in *; sproj.
+           rewrite sreads_app, cnt_app. simpl sreads. rewrite cnt_one. unfold one_if. simpl in *. lia.
+      * apply K_stream_dispatch; [exact K1 | sproj; apply in_or_app; right; simpl; auto | sproj; exact Erd | ].
+        intros i. pose proof (k_count _ _ HK i) as Kc. rewrite Erd in Kc. unfold sigs in *; sproj.
+        rewrite sreads_app, cnt_app. simpl sreads. rewrite cnt_one. simpl in *. lia.
   - (* r_rd_offer *)
     unfold r_rd_offer in H. destruct (rd s) eqn:Erd; try discriminate.
     destruct (find_idle (wk s) 0) as [w|]; [|discriminate]. inv_some H.
     assert (Hr : In (SvRead f0) (Server.log s)) by (apply (k_offer _ _ HK); exact Erd).
     assert (K1 : K f (add_log (set_rd s RdRead) [SvJob w f0])).
     { apply (K_from_old f s); [exact HK | pend_old_tac | sigs_same | log_ext | rd_same]. }
-    apply K_start_unary; [exact K1 | sproj; apply in_or_app; left; exact Hr].
+    apply K_start_unary; [exact K1 | sproj; apply in_or_app; left; exact Hr | sproj; reflexivity | ].
+    intros i. pose proof (k_count _ _ HK i) as Kc. rewrite Erd in Kc. unfold sigs in *; sproj.
+    rewrite sreads_app, cnt_app. simpl in *. unfold one_if. lia.
   - (* r_h_unreg *)
     unfold r_h_unreg in H. destruct (nth_error (hs s) h) as [k|] eqn:Hn; [|discriminate].
     destruct (h_pc k) eqn:Hpc; try discriminate. destruct (mu_free s); [|discriminate].
@@ -187,10 +219,13 @@ Lemma K_from_step3 f s s' :
   sigs s' = sigs s -> (exists evs, Server.log s' = Server.log s ++ evs) ->
   (forall fr, rd s' = RdOffer fr -> rd s = RdOffer fr) -> K f s'.
 Proof.
-  intros [Kp Kr Ko] PO SS (evs & Hlog) Hrd. constructor.
+  intros [Kp Kr Ko Kc] PO SS (evs & Hlog) Hrd. constructor.
   - intros fr P. destruct (PO fr P) as [P0 | [Nb | J]]; [rewrite SS; auto | apply justf_nobody; auto | exact J].
   - rewrite SS, Hlog. intros u rq Hin. apply in_or_app. left. eauto.
   - intros fr E. rewrite Hlog. apply in_or_app. left. auto.
+  - intros i. rewrite SS, Hlog, sreads_app, cnt_app. specialize (Kc i).
+    assert (offer_cnt i (rd s') <= offer_cnt i (rd s))%nat; [|lia].
+    destruct (rd s') eqn:E; simpl; try lia. rewrite (Hrd _ eq_refl). simpl. lia.
 Qed.
 
 Lemma sig_in s h k : nth_error (hs s) h = Some k -> In (h_unary k, h_req k) (sigs s).
